@@ -92,6 +92,16 @@ def load_known():
     return data.get("findings", [])
 
 
+def _census():
+    """Which function bodies of the repository the partial evaluator walked statement by statement during this run (all pool workers
+    included), and which it replaced by a rule-supplied summary: measured, so that a reader can see what the verdict rests on."""
+    from . import symeval as S
+
+    if not S.FOLDED and not S.SUMMARISED:
+        return {}
+    return dict(functions_folded=len(S.FOLDED), functions_folded_list=sorted(S.FOLDED), functions_summarised_list=sorted(S.SUMMARISED))
+
+
 def finish(rep: Report, seed=0):
     """Write evidence, print the verdict lines, return the exit code."""
     from .model import AnalysisError
@@ -162,6 +172,7 @@ def finish(rep: Report, seed=0):
         notes=rep.notes,
         violations_listed=[dict(o.as_dict(), known=k.get("what")) for o, k in listed],
         violations_unlisted=[o.as_dict() for o, _ in unlisted],
+        **_census(),
         **rep.info,
     )
     ev = dict(
